@@ -163,6 +163,7 @@ type pexec struct {
 	eofSeen bool // wrap: io.EOF was returned
 
 	fills, shrinks int
+	tableEntries   int64  // entries of the parser's hash / bucket tables (for the tick budget)
 	callerBuf      []byte // the last slice with spare capacity handed to Reset (a caller may refill and reuse it)
 	clk            *taskClock
 	noBudget       bool
@@ -255,6 +256,9 @@ func (x *pexec) call(budget int64, f func()) (panicked string, hang bool) {
 
 func (x *pexec) budget(arg int) int64 {
 	b := 50_000_000 + 4000*int64(x.bc.BufferSize+arg)
+	// Shrink and Reset walk the whole match-finder table (BUP: 2^HashBits
+	// buckets of BucketSize entries, each touched a few times)
+	b += 16 * x.tableEntries
 	if x.spec.Type == "GSAP" || x.spec.Type == "OSAP" {
 		// the suffix-array parsers are superlinear in the data they hold
 		// (measured: up to 2400 ticks per buffered byte for OSAP at 72 KiB);
@@ -365,6 +369,9 @@ func (x *pexec) setup() {
 		x.abort("config rejected: " + perr.Error())
 	}
 	x.bc = x.parser.BufferConfig()
+	if c := x.parser.ParserConfig(); c != nil {
+		x.tableEntries = tableBytes(c) / 8
+	}
 	if x.spec.Target == "wrap" {
 		x.rd = NewSimReader(x.t.Input[x.cursor:], x.spec.Plan, x.res.Fired)
 		if k := x.spec.PreUse; k > 0 {
